@@ -158,7 +158,7 @@ class Unit:
         self.notes = []
         self.externs = ["http", "hyper", "bytes", "tokio", "serde_json", "itertools", "hex", "hmac_sha256",
                         "http_body_util", "hyper_util", "tower", "tower_http", "bitflags", "log", "serde",
-                        "thiserror", "once_cell", "regex", "time", "uuid", "tokio_util"]
+                        "thiserror", "once_cell", "regex", "time", "uuid", "tokio_util", "serde_derive"]
         self.use_externs = set()
         self.features = []
         self.twin = False
@@ -345,9 +345,9 @@ class Unit:
         self.emit("} // mod %s" % modname, "glue", "E1")
         self.pieces = saved
         self.emit("pub use crate::%s::{%s};" % (modname, ", ".join(names)), "glue", "E1")
-        if opaque:
-            for n in names:
-                self.emit("#[verifier::external_type_specification]\n#[verifier::external_body]\npub struct VxEx_%s_%s(crate::%s::%s);" % (modname, n, modname, n), "glue", "E1")
+        for n in names:
+            # opaque: Verus never looks inside; transparent (opaque=False): fields visible to Verus (all fields pub, supported types)
+            self.emit("#[verifier::external_type_specification]\n%spub struct VxEx_%s_%s(crate::%s::%s);" % ("#[verifier::external_body]\n" if opaque else "", modname, n, modname, n), "glue", "E1")
 
     # ---- take: struct / enum / const ---------------------------------------
     def take(self, sf, path, kind=None, keep_derive=(), extra_attrs="", make_pub=True, structural=False):
